@@ -905,10 +905,12 @@ std::size_t QuadraticModelBase<bias_type, index_type>::remove_interactions(Filte
     index_type u = 0;
     for (auto& n : *adj_ptr_) {
         auto it = std::remove_if(n.begin(), n.end(),
-                                 [&u, &filter](const OneVarTerm<bias_type, index_type>& term) {
+                                 [&u, &filter, &num_removed](const OneVarTerm<bias_type, index_type>& term) {
                                      const index_type& v = term.v;
                                      const bias_type& bias = term.bias;
                                      assert(filter(u, v, bias) == filter(v, u, bias));
+                                     // a self-loop is stored once: count it for both directions
+                                     if (u == v && filter(u, v, bias)) ++num_removed;
                                      return filter(u, v, bias);
                                  });
 
